@@ -43,8 +43,20 @@ def model(res, tier):
     res.add(sensitivity_configs_failing_as_expected=len(SENSITIVITY))
 
 
-def validate(res, d, ids, name, prefix=""):
-    """Run Trace_Analyses over the logs of `ids`; returns (violations, drift, counts)."""
+def validate(res, d, ids, name, prefix="", chunk=250):
+    """Run Trace_Analyses over the logs of `ids` (in chunks: one TLC run per `chunk` cases);
+    returns (violations, drift, counts, tlc result)."""
+    if len(ids) > chunk:
+        viol, drift, counts, rr = [], [], {}, {"distinct": 0, "generated": 0}
+        for k in range(0, len(ids), chunk):
+            v, dr, c, r = validate(res, d, ids[k:k + chunk], "%s-%d" % (name, k // chunk), prefix, chunk)
+            viol += v
+            drift += dr
+            for a, b in c.items():
+                counts[a] = counts.get(a, 0) + b if isinstance(b, (int, float)) else b
+            rr["distinct"] += r.get("distinct", 0)
+            rr["generated"] += r.get("generated", 0)
+        return viol, drift, counts, rr
     trace = os.path.join(C.workdir("c07-trace-" + name), "trace.ndjson")
     n = C.build_trace(d, ids, EVENTS, trace, prefix)
     if n == 0:
